@@ -33,6 +33,8 @@ inductive Parses : NT → List Tok → Expr → List Tok → Prop where
   | tru {rest} : Parses .primary (.tru :: rest) (.bool true) rest
   | fls {rest} : Parses .primary (.fls :: rest) (.bool false) rest
   | null {rest} : Parses .primary (.null :: rest) .null rest
+  | int {s rest} : Parses .primary (.int s :: rest) (.num (numValue s)) rest
+  | dec {s rest} : Parses .primary (.dec s :: rest) (.num (numValue s)) rest
   | ref {n rest} : quiet rest → Parses .primary (.name n :: rest) (.ref n) rest
   | paren {ts e rest} : lamHead (.lparen :: ts) = none → Parses (.expr 0) ts e (.rparen :: rest) → quiet rest →
       Parses .primary (.lparen :: ts) (.paren e) rest
@@ -117,6 +119,8 @@ theorem run_of_parses {nt : NT} {ts : List Tok} {e : Expr} {rest : List Tok} (h 
   | tru => exact ⟨1, fun f hf => by obtain ⟨g, rfl⟩ : ∃ g, f = g + 1 := ⟨f - 1, by omega⟩; simp [run, parsePrimary]⟩
   | fls => exact ⟨1, fun f hf => by obtain ⟨g, rfl⟩ : ∃ g, f = g + 1 := ⟨f - 1, by omega⟩; simp [run, parsePrimary]⟩
   | null => exact ⟨1, fun f hf => by obtain ⟨g, rfl⟩ : ∃ g, f = g + 1 := ⟨f - 1, by omega⟩; simp [run, parsePrimary]⟩
+  | int => exact ⟨1, fun f hf => by obtain ⟨g, rfl⟩ : ∃ g, f = g + 1 := ⟨f - 1, by omega⟩; simp [run, parsePrimary]⟩
+  | dec => exact ⟨1, fun f hf => by obtain ⟨g, rfl⟩ : ∃ g, f = g + 1 := ⟨f - 1, by omega⟩; simp [run, parsePrimary]⟩
   | @ref n rest hq =>
     refine ⟨3, fun f hf => ?_⟩
     obtain ⟨g, rfl⟩ : ∃ g, f = g + 3 := ⟨f - 3, by omega⟩
@@ -151,6 +155,7 @@ inductive Core : Expr → Prop where
   | tru : Core (.bool true)
   | fls : Core (.bool false)
   | null : Core .null
+  | num {s} : numValue s = s → Core (.num s)
   | neg {e} : Core e → 13 ≤ level e → Core (.neg e)
   | paren {e} : Core e → Core (.paren e)
   | bin {o l r} : Core l → Core r → o.prec ≤ level l → o.prec + 1 ≤ level r → Core (.bin o l r)
@@ -196,6 +201,7 @@ theorem lamHead_core {e : Expr} (h : Core e) : ∀ T, tailOK T → lamHead (.lpa
   | tru => intro T _; simp [toks, lamHead]
   | fls => intro T _; simp [toks, lamHead]
   | null => intro T _; simp [toks, lamHead]
+  | num _ => intro T _; simp only [toks]; split <;> simp [lamHead]
   | neg _ _ _ => intro T _; simp [toks, lamHead]
   | paren _ _ => intro T _; simp [toks, lamHead]
   | @bin o l r _ _ _ _ ihl _ =>
@@ -220,6 +226,16 @@ theorem parses_toks {e : Expr} (h : Core e) :
   | tru => intro p rest e' rest' _ _ _ hk; exact .expr .tru hk
   | fls => intro p rest e' rest' _ _ _ hk; exact .expr .fls hk
   | null => intro p rest e' rest' _ _ _ hk; exact .expr .null hk
+  | @num s hs =>
+    intro p rest e' rest' _ _ _ hk
+    simp only [toks]
+    split
+    · have h : Parses .primary (.dec s :: rest) (.num (numValue s)) rest := .dec
+      rw [hs] at h
+      exact .expr h hk
+    · have h : Parses .primary (.int s :: rest) (.num (numValue s)) rest := .int
+      rw [hs] at h
+      exact .expr h hk
   | @neg e1 _ hl ih =>
     intro p rest e' rest' _ hq _ hk
     simp only [toks, List.cons_append]
